@@ -73,11 +73,12 @@ def first_diff(a, b, path="args"):
     return path
 
 
-def direct_calls(ctx):
-    """the array-taking model functions with arrays produced by the library's own helpers"""
+def direct_calls(ctx, kind=None, float_ks=False):
+    """the array-taking model functions with arrays produced by the library's own helpers; `float_ks`: degree
+    arrays passed with float dtype (a caller may legitimately do that)"""
     import EoN, EoN.analytic as an
     out = []
-    G, _ = odes.graph(ctx.rng)
+    G, _ = odes.graph(ctx.rng, kind=kind)
     infs = ctx.rng.sample(list(G), 2)
     tau, gamma = 0.5, 1.0
     t = dict(tmin=0, tmax=2, tcount=5)
@@ -89,10 +90,10 @@ def direct_calls(ctx):
     out.append(("SIS_heterogeneous_meanfield", EoN.SIS_heterogeneous_meanfield, (f(Sk0), f(Ik0), tau, gamma), dict(t)))
     out.append(("SIR_heterogeneous_meanfield", EoN.SIR_heterogeneous_meanfield, (f(Sk0r), f(Ik0r), f(Rk0r), tau, gamma), dict(t)))
     out.append(("SIS_heterogeneous_pairwise", EoN.SIS_heterogeneous_pairwise,
-                (f([Sk0[k] for k in Ks]), f([Ik0[k] for k in Ks]), f(SkSl0), f(SkIl0), f(IkIl0), tau, gamma), dict(t, Ks=np.array(Ks))))
+                (f([Sk0[k] for k in Ks]), f([Ik0[k] for k in Ks]), f(SkSl0), f(SkIl0), f(IkIl0), tau, gamma), dict(t, Ks=np.array(Ks, dtype=float if float_ks else int))))
     out.append(("SIR_heterogeneous_pairwise", EoN.SIR_heterogeneous_pairwise,
                 (f([Sk0r[k] for k in Ks]), f([Ik0r[k] for k in Ks]), f([Rk0r[k] for k in Ks]), f(SkSl0), f(SkIl0), tau, gamma),
-                dict(t, Ks=np.array(Ks))))
+                dict(t, Ks=np.array(Ks, dtype=float if float_ks else int))))
     out.append(("SIS_compact_pairwise", EoN.SIS_compact_pairwise, (f(Sk0), f(Ik0), SI0, SS0, II0, tau, gamma), dict(t)))
     out.append(("SIR_compact_pairwise", EoN.SIR_compact_pairwise, (f(Sk0r), float(sum(Ik0r)), 0.0, SS0, SI0, tau, gamma), dict(t)))
     maxk = len(Nk) - 1
@@ -135,8 +136,9 @@ def run(ctx):
             f = lambda G_, kw_: odes.call(name, G_, kw_, 0.5, 1.0, 0 if e["discrete"] else 0.0, 3 if e["discrete"] else 2.0, 5, bool(e["full"]), p=0.5)
             twice(ctx, rep, f, (G, kw), {}, True)
     # --- direct model functions
-    for _ in range(ctx.scale(3, 20)):
-        for name, f, args, kwargs in direct_calls(ctx):
+    for _ in range(ctx.scale(14, 56)):
+        # every graph kind (incl. isolated nodes = a degree-0 class) with int and float degree arrays
+        for name, f, args, kwargs in direct_calls(ctx, kind=odes.KINDS[_ % len(odes.KINDS)], float_ks=(_ // len(odes.KINDS)) % 2 == 1):
             rep = dict(entry=name, stream="direct")
             ctx.case(dict(rep, k=_), nontrivial=True)
             ctx.count("direct:" + name)
